@@ -23,6 +23,13 @@ class Rule:
         self.instances: List[dict] = []
 
     def _add(self, status, key, where, detail):
+        # same normalised construct at another site of the same function: ordinal suffix in source order
+        prior = [i for i in self.instances if i["key"].split("#")[0] == f"{self.id}|{key}" and i["where"] != where]
+        same = [i for i in self.instances if i["key"].split("#")[0] == f"{self.id}|{key}" and i["where"] == where]
+        if same:
+            key = same[0]["key"][len(self.id) + 1:]
+        elif prior:
+            key = f"{key}#{len({i['where'] for i in prior}) + 1}"
         self.instances.append({"rule": self.id, "key": f"{self.id}|{key}", "where": where, "status": status, "detail": detail})
 
     def ok(self, key: str, where: str = "", detail: str = ""):
@@ -84,11 +91,6 @@ class Check:
         for r in self.rules.values():
             if len(r.instances) < r.floor:
                 floor_errors.append(f"rule {r.id} matched {len(r.instances)} instance(s), floor is {r.floor} ({r.desc})")
-        if floor_errors:
-            for e in floor_errors:
-                print(f"ANALYSIS-ERROR property={self.pid} {e}", file=out)
-            self._write_evidence(all_inst, [], [], error="; ".join(floor_errors))
-            return 2
         known = self._known()
         known_keys = {k["key"]: k for k in known}
         viol = [i for i in all_inst if i["status"] == "violation"]
@@ -123,6 +125,12 @@ class Check:
             rp = self._write_replay(new)
             print(f"VIOLATION property={self.pid} replay={rp}", file=out)
             return 1
+        if floor_errors:
+            # no violation found, but a rule matched fewer sites than confirmed by hand: never a silent pass
+            for e in floor_errors:
+                print(f"ANALYSIS-ERROR property={self.pid} {e}", file=out)
+            self._write_evidence(all_inst, [], matched, error="; ".join(floor_errors))
+            return 2
         if not self.quiet:
             print(f"OK property={self.pid} tier={self.tier}: {len(all_inst)} obligation(s), "
                   f"{len(all_inst) - len(viol)} discharged, {len(matched)} known finding instance(s)", file=out)
